@@ -178,7 +178,8 @@ def r2(ctx):
                 cur = nxt[0] if len(nxt) == 1 else None
                 depth += 1
         fed.append(names)
-    need = {"namespace": {"namespace"}, "author": {"author_bytes", "author"}, "key": {"key"}, "timestamp": {"timestamp"}, "content hash": {"content_hash"}}
+    # `id()` (the RecordIdentifier = namespace || author || key) covers the three identifying components at once
+    need = {"namespace": {"namespace", "id"}, "author": {"author_bytes", "author", "id"}, "key": {"key", "id"}, "timestamp": {"timestamp"}, "content hash": {"content_hash"}}
     for what, alts in need.items():
         ok = any(n & alts for n in fed)
         ctx.check(ok, "C01.R2", b.path, "fingerprint-covers-%s" % what.replace(" ", "-"),
@@ -213,19 +214,10 @@ def r3(ctx):
     ctx.check(ok, "C01.R3", SPM, "num_recv+=message.value_count()-before-processing", "the received counter is increased by the incoming value count before process_message", recv[0][1]["sp"] if recv else b.sp)
     oks = len(sent) == 1
     if oks:
-        # dominated by the Some(reply) edge of the reply
-        doms = False
-        for bi, blk in enumerate(b.blocks):
-            tt = blk["t"]
-            if tt["k"] == "switch" and tt["d"][0] in ("copy", "move"):
-                ds = b.defs().get(tt["d"][1]["l"], [])
-                if len(ds) == 1 and ds[0][2] == "assign" and ds[0][3]["r"][0] == "discr":
-                    pl = ds[0][3]["r"][1]
-                    ty = b.locals[pl["l"]]["ty"]
-                    if ty.startswith("std::option::Option<ranger::Message") and not pl["p"]:
-                        for v, tb in tt["v"]:
-                            if v == 1 and b.edge_dominates(bi, tb, sent[0][0]):
-                                doms = True
+        # dominated by an edge on which the reply is Some
+        from .common import variant_edges, dominated_by_any
+        es = variant_edges(b, lambda ty: ty.startswith("std::option::Option<") and "ranger::Message" in ty, 1)
+        doms = dominated_by_any(b, es, sent[0][0])
         adds = [s for _, _, s in b.statements() if s["k"] == "assign" and s["r"][0] == "bin" and s["r"][1] in ("Add", "AddWithOverflow") and
                 any(any(pr[0] == "field" and pr[2] == "num_sent" for pr in o[1]["p"]) for o in (s["r"][2], s["r"][3]) if o[0] in ("copy", "move"))]
         from_reply = len(adds) == 1 and any(o.kind == "call" and o.data["f"].get("name") == "value_count" for x in (adds[0]["r"][2], adds[0]["r"][3]) if x[0] != "const" for o in trace(b, x, through_calls=False))
